@@ -377,7 +377,7 @@ fn check_case(sb: &Sandbox, opts: &Opts, idx: usize, case: &Case, runs: usize, p
         if let Some(field) = first_difference(&base, &obs) {
             let same_vector = c == 0;
             // minimise
-            let (cfg_b, files) = if same_vector || field == "stale-link:message" {
+            let (cfg_b, files) = if same_vector || field == "stale-link:message" || !harness::may_shrink() {
                 (cfg.clone(), case.files.clone())
             } else {
                 let b = minimise_configs(sb, &case.files, &layout, topo.as_deref(), &c0, &cfg, &field);
